@@ -216,6 +216,11 @@ class VectorModel(ContainerModel):
         if name in ('operator[]', 'at') and len(args) == 1:
             # element access as an array-index lvalue (bounds asserted by NAME_chk) rather than through a pointer-returning
             # function: cheaper for CBMC and keeps the points-to reasoning trivial
+            if isinstance(b, Elem) and getattr(b, 'row_like', False):
+                # indexing a row: the plain row address is enough for an lvalue path (reads and writes by index are precise); the
+                # case-split address NAME_at() is only needed where a pointer into the row escapes (begin(), reference arguments)
+                pb = Addr('(&%s)' % b)
+                pb.lv = b
             if pure_expr(b) and pure_expr(A[0]):
                 if '.e[' in b or '->e[' in b:
                     # CBMC 6.11 loses track of pointers of the shape &outer.e[sym].e[k] (reads and writes through them become
@@ -226,6 +231,13 @@ class VectorModel(ContainerModel):
                     return ne
                 el = Elem('%s.e[%s_chk(%s, %s)]' % (paren_lv(b), c, pb, A[0]))
                 el.cont, el.cname, el.idx = pb, c, A[0]
+                try:
+                    em_ = fe.em.models.lookup(fe.em, self.elem) if self.elem.kind == 'name' else None
+                except Exception:
+                    em_ = None
+                # a row (an element that is itself a container): its address is formed by the case-split NAME_at() unless the index
+                # is a literal, so that pointers into the row (begin(), &row[0]) are dereferenced precisely (see xtract.NestedElem)
+                el.row_like = em_ is not None and getattr(em_, 'is_container', False) and not re.fullmatch(r'\(?\(?\(U_t\)\d+\)?\)?|\d+', A[0].strip())
                 return el
             return deref('%s_idx(%s, %s)' % (c, pb, A[0]))
         if name == 'reserve':
@@ -825,6 +837,16 @@ def default_registry():
             m.elem, fname, m.elem, m.elem, m.elem, m.elem, m.elem))
         return '%s(%s, %s, %s)' % (fname, b, e, v)
     r.free['find'] = h_find
+
+    def h_fill(fe, args, node):
+        # std::fill(first, last, value) over a pointer-iterator range
+        b, e, v = fe.expr(args[0]), fe.expr(args[1]), fe.expr(args[2])
+        et = fe.ty(args[0])
+        m = r.lookup(fe.em, et.strip_ref())
+        if m is None or not m.is_iter:
+            brk('std::fill on non-iterator %r' % et)
+        return '({ %s *xt_fb = %s; %s *xt_fe = %s; %s xt_fv = %s; for (; xt_fb != xt_fe; ++xt_fb) *xt_fb = xt_fv; (void)0; })' % (m.elem, b, m.elem, e, m.elem, v)
+    r.free['fill'] = h_fill
 
     def h_max(fe, args, node):
         if not args:    # std::numeric_limits<T>::max()
